@@ -602,12 +602,10 @@ func vh_C05_tree_glob() {
 	// outside the claim: "." and ".." elements (Glob reports the cleaned name
 	// where filepath.Glob echoes the pattern)
 	vAssume(x != '.' && y != '.')
-	// ASCII pattern bytes; thorough: the first one arbitrary (multi-byte and invalid
-	// UTF-8 lead bytes) - both arbitrary did not finish within 35 minutes
-	vAssume(y < 0x80)
-	if !vThorough() {
-		vAssume(x < 0x80)
-	}
+	// ASCII pattern bytes in both tiers (with both bytes arbitrary - multi-byte and
+	// invalid UTF-8 - the exploration did not finish within 35 minutes; that range
+	// is outside the claim)
+	vAssume(x < 0x80 && y < 0x80)
 	var pcs []string
 	switch vChoice(5) {
 	case 0:
